@@ -2084,6 +2084,18 @@ impl fmt::Display for XmlElement {
     }
 }
 
+impl XmlAttr {
+    /// The element this attribute is attached to (DOM Level 1 has no accessor for it, the
+    /// XPath data model calls it the parent of the attribute).
+    pub fn owner_element(&self) -> Option<XmlElement> {
+        self.attribute
+            .borrow()
+            .owner_element()
+            .ok()
+            .map(XmlElement::from)
+    }
+}
+
 impl XmlElement {
     pub fn in_scope_namespace(&self) -> error::Result<Vec<XmlNamespace>> {
         Ok(self
